@@ -126,12 +126,12 @@ def gen_case(rng, kinds, maxlen=10, depths=(1, 2, 2, 3)):
             ops.append(["clear", path])
         elif k == "updcoords":
             depth = rng.randint(0, max(0, n - 1 - len(path)))
-            ops.append(["updcoords", path, depth, rng.choice([1, 1, -1]), rng.choice([0, 1, 3, 20])])
+            ops.append(["updcoords", path, depth, rng.choice([1, 1, -1, -1]), rng.choice([0, 0, 1, 3, 20, -2, -5])])
         elif k == "updtbl":
             depth = rng.randint(0, max(0, n - 1 - len(path)))
             src = rng.sample(range(0, 9), rng.randint(1, 5))
-            dst = rng.sample(range(0, 12), len(src))          # distinct images (may collide with c+off: guarded)
-            ops.append(["updtbl", path, depth, [[a, b] for a, b in zip(src, dst)], rng.choice([0, 0, 20, 100])])
+            dst = rng.sample(range(-6, 12), len(src))         # distinct images (may collide with c+off: guarded)
+            ops.append(["updtbl", path, depth, [[a, b] for a, b in zip(src, dst)], rng.choice([0, 0, 20, 100, -9])])
         elif k == "updpay":
             depth = n - 1 - len(path)
             ops.append(["updpay", path, depth, rng.choice([1, -1, 2, 5])])
